@@ -219,6 +219,7 @@ var battery = []string{
 	"(def zq3 [1 2 3])",
 	"(aget zq3 9)",
 	"(m0 4)", "(m1 4)",
+	"(t0)", "(t1)", "(t2)", "(t0)",
 	"(- 10 3)",
 }
 
